@@ -311,6 +311,7 @@ func checkC08(r *core.Run) {
 		if v.arch == "" {
 			c08Alias(r, p)
 			c08SpecialCases(r, p, "R-C08-alias")
+			c08InfinityDefined(r, p, "R-C08-alias")
 		}
 		c08Mag(r, p, v.name)
 		c08Words(r, p, v.name)
@@ -664,4 +665,154 @@ func c08SpecialCases(r *core.Run, p *core.Program, rule string) {
 	}
 	sort.Strings(bad)
 	r.Check(len(bad) == 0 && n >= 4, rule, "special-cases-return", "-", fmt.Sprintf("%d special-case results (doubling / infinity), none followed by the generic formula", n), strings.Join(bad, "; "))
+}
+
+// c08InfinityDefined: a point record is three (or two) coordinates plus the point-at-infinity flag.  Every
+// function that fills the coordinates of an output record has to define the flag as well on each of its
+// paths - by storing it, by storing the whole record, or by handing the record to a function that does -
+// otherwise the flag of whatever the record held before survives (a stale "infinity", or a stale "finite"
+// for the neutral element).  Functions that only rework the representation of the same point in place
+// (table in cfgInPlace) are exempt.
+func c08InfinityDefined(r *core.Run, p *core.Program, rule string) {
+	sp := p.SSAPkg("lib/secp256k1")
+	if sp == nil {
+		r.Undecided("no SSA for lib/secp256k1")
+		return
+	}
+	fobj := sp.Pkg.Scope().Lookup("Field")
+	if fobj == nil {
+		r.Undecided("Field type not found")
+		return
+	}
+	ac := an.NewAliasChecker(p, fobj.Type().(*types.Named))
+	ac.ValuePreserving = map[string]bool{"(*lib/secp256k1.Field).Normalize": true}
+	isPoint := func(t types.Type) bool {
+		n := an.TypeName(an.Deref(t))
+		return strings.HasSuffix(n, "secp256k1.XYZ") || strings.HasSuffix(n, "secp256k1.XY")
+	}
+	coordW := map[string]map[*ssa.BasicBlock]bool{} // function#param -> blocks that fill a coordinate of it
+	memo := map[string]int{}                        // 1 = defines on every path, 2 = does not, 3 = in progress
+	var defines func(fn *ssa.Function, pi int) bool
+	defines = func(fn *ssa.Function, pi int) bool {
+		k := fmt.Sprintf("%s#%d", core.FuncName(fn), pi)
+		switch memo[k] {
+		case 1:
+			return true
+		case 2, 3:
+			return false
+		}
+		memo[k] = 3
+		if fn.Blocks == nil || pi >= len(fn.Params) {
+			memo[k] = 2
+			return false
+		}
+		par := ssa.Value(fn.Params[pi])
+		def := map[*ssa.BasicBlock]bool{}
+		for _, b := range fn.Blocks {
+			for _, ins := range b.Instrs {
+				switch x := ins.(type) {
+				case *ssa.Store:
+					if x.Addr == par {
+						def[b] = true
+					} else if fa, ok := x.Addr.(*ssa.FieldAddr); ok && fa.X == par {
+						if f, _ := an.FieldOf(fa); strings.HasSuffix(f, ".Infinity") {
+							def[b] = true
+						}
+					}
+				case ssa.CallInstruction:
+					cal := an.StaticCallee(x)
+					if cal == nil || !core.InModule(cal) {
+						continue
+					}
+					for ai, a := range x.Common().Args {
+						if a == par && defines(cal, ai) {
+							def[b] = true
+						}
+					}
+				}
+			}
+		}
+		// is there a path entry -> return that fills a coordinate (coordW) and passes no defining block?
+		// (paths that give up before touching the record do not matter)
+		type stt struct {
+			b *ssa.BasicBlock
+			w bool
+		}
+		seen := map[stt]bool{}
+		st := []stt{{fn.Blocks[0], false}}
+		ok := true
+		for len(st) > 0 && ok {
+			c := st[len(st)-1]
+			st = st[:len(st)-1]
+			if def[c.b] {
+				continue
+			}
+			c.w = c.w || coordW[k][c.b]
+			if seen[c] {
+				continue
+			}
+			seen[c] = true
+			if _, isRet := c.b.Instrs[len(c.b.Instrs)-1].(*ssa.Return); isRet && (c.w || coordW[k] == nil) {
+				ok = false
+			}
+			for _, s := range c.b.Succs {
+				st = append(st, stt{s, c.w})
+			}
+		}
+		if ok {
+			memo[k] = 1
+		} else {
+			memo[k] = 2
+		}
+		return ok
+	}
+	n := 0
+	var bad []string
+	allWrites := map[*ssa.Function]map[int]map[string]bool{}
+	for _, fn := range p.ModuleFuncs() {
+		if fn.Pkg != sp || fn.Blocks == nil {
+			continue
+		}
+		writes := map[int]map[string]bool{}
+		for _, ev := range ac.Events(fn) {
+			if ev.Write && isPoint(fn.Params[ev.Param].Type()) {
+				if writes[ev.Param] == nil {
+					writes[ev.Param] = map[string]bool{}
+				}
+				writes[ev.Param][ev.Coord] = true
+				k := fmt.Sprintf("%s#%d", core.FuncName(fn), ev.Param)
+				if coordW[k] == nil {
+					coordW[k] = map[*ssa.BasicBlock]bool{}
+				}
+				coordW[k][ev.Instr.Block()] = true
+			}
+		}
+		allWrites[fn] = writes
+	}
+	for _, fn := range p.ModuleFuncs() {
+		if fn.Pkg != sp || fn.Blocks == nil {
+			continue
+		}
+		name := core.FuncName(fn)
+		writes := allWrites[fn]
+		for pi, cs := range writes {
+			key := fmt.Sprintf("%s#%d", name, pi)
+			if why, ex := c08InPlace[key]; ex {
+				_ = why
+				continue
+			}
+			n++
+			if !defines(fn, pi) {
+				bad = append(bad, fmt.Sprintf("%s fills %s of its record parameter %d but leaves the point-at-infinity flag undefined on some path", name, an.TagList(cs), pi))
+			}
+		}
+	}
+	sort.Strings(bad)
+	r.Check(len(bad) == 0 && n >= 10, rule, "infinity-flag-defined", "-", fmt.Sprintf("%d (function, output record) pairs fill coordinates; each defines the flag on every path", n), strings.Join(bad, "; "))
+}
+
+// functions that rewrite coordinates of the same point (representation changes): the flag keeps its meaning
+var c08InPlace = map[string]string{
+	"(*lib/secp256k1.XY).SetXYZ#1":      "the Jacobian input is rescaled to z = 1 in place: same point, same flag",
+	"(*lib/secp256k1.XY).ParsePubkey#0": "the 65-byte branch stores x and y directly and leaves the flag as it was; the result is only used when IsValid (which refuses a record flagged infinite) returned true",
 }
